@@ -740,7 +740,13 @@ Definition define_class (w : world) (d : cdecl) : res world :=
   let meta := cd_dbc d || existsb (fun b => match get_class w1 b with Some c => co_meta c | None => false end) (cd_bases d) in
   let k := List.length (w_classes w1) in
   match compute_mro w1 k (cd_bases d) with
-  | None => Err "TypeError"
+  | None =>
+      (* the metaclass decorates the namespace before [type.__new__] linearises the bases: an error of the
+         inherited contracts surfaces before the TypeError of an inconsistent hierarchy *)
+      match (if meta then dbc_decorate_members w1 (cd_bases d) (cd_dbc d) ns ns else Ok (w1, ns)) with
+      | Err e => Err e
+      | Ok _ => Err "TypeError"
+      end
   | Some mro =>
       r2 <- (if meta
              then
